@@ -42,8 +42,9 @@ def run(pid, tier, seed):
             return rep.finish()
         raise ToolError("probe crate does not build: " + err[-3000:])
     rows = [l for l in p.stdout.splitlines() if l.startswith("{")]
-    if len(rows) != 4 * 3 * 64:
-        raise ToolError("probe printed %d rows, expected 768" % len(rows))
+    expected = int(open(os.path.join(PROBE, "NROWS")).read())
+    if len(rows) != expected or expected < 4 * 3 * 64 + 100:
+        raise ToolError("probe printed %d rows, expected %d" % (len(rows), expected))
     tr = os.path.join(d, "table.ndjson")
     open(tr, "w").write("\n".join(rows) + "\n")
     cfg = "SPECIFICATION TSpec\nINVARIANTS Consumed ModelOK\nPOSTCONDITION AllConsumed\nCHECK_DEADLOCK FALSE\n"
@@ -66,8 +67,11 @@ def run(pid, tier, seed):
     rep.cov.update({"states": r.distinct, "transitions": r.generated, "traces_validated_against_impl": len(rows),
                     "evaluations": len(rows), "distinct_nontrivial": len([x for x in rows if '"k":"both","n":"both","e":"both"' not in x]),
                     "rule": "one row = (flavour, type, capability assignment of K,N,E); non-trivial = at least one parameter is not Send+Sync "
-                            "(the 'only if' direction); all 64 assignments x 3 types x 4 flavours", "exhaustive": True, "model_drift": drift,
-                    "samples": [json.loads(rows[k]) for k in (200, 201, 255, 600)],
+                            "(the 'only if' direction); all 64 assignments x 3 types x 4 flavours, plus the carrier rows", "exhaustive": True, "model_drift": drift,
+                    "samples": [json.loads(rows[k]) for k in (200, 201, 255, 600, 790, 800)],
+                    "carrier_rows": len(rows) - 768,
+                    "carriers": "search builders Bfs/Dfs/Pfs/Order (never Send/Sync: type-erased callback), iterators and Path (only if all payloads are Send+Sync), "
+                                "obtained through the public API and probed at value level, for 10 capability assignments per sync flavour",
                     "generic_positive_obligations": "positive_sync_digraph / positive_sync_ungraph type-check for all K,N,E: Send+Sync",
                     "model_invariant": "DerivedSatisfiesC16 over all 4 x 3 x 64 combinations"})
     rep.assumptions += ["parametricity: auto traits and where-clauses can depend on K, N, E only through their own Send / Sync, so 4 witnesses per parameter are exhaustive",
